@@ -276,6 +276,32 @@ def _is_minus_one_of(func, expr, mtxt, typer=None):
 
 
 # ---------------------------------------------------------------------- D2
+def rule_name_truthiness(ctx, typer, files, rule="D3"):
+    """the node's name is a value like any other: no branch of the default name / label code is decided by its TRUTH value
+    (`if not getattr(node, "name", None): raise ...`, `name or <fall-back>`): '', 0 and None are names that must be printed"""
+    from .common import resolve_local
+    n = 0
+    for f in ctx.p.all_funcs:
+        if f.module.relpath not in files or f.is_lambda:
+            continue
+        cfg = typer.cfg_of(f)
+
+        def is_name_read(e, depth=0):
+            if isinstance(e, ast.Name) and depth < 3:
+                r = resolve_local(f, e)
+                return r is not e and is_name_read(r, depth + 1)
+            if isinstance(e, ast.Attribute) and e.attr == "name" and isinstance(e.value, ast.Name):
+                return True
+            return isinstance(e, ast.Call) and norm(e.func) == "getattr" and len(e.args) >= 2 and isinstance(e.args[1], ast.Constant) \
+                and e.args[1].value == "name"
+        for g in cfg.nodes:
+            if g.kind == "guard" and g.outcome is True and is_name_read(g.cond):
+                n += 1
+                ctx.viol(rule, f, g.cond, "a branch is decided by the truth value of the node's name (`%s`): a name that is falsy ('', 0, None) is "
+                         "treated as missing instead of being written out" % norm(g.cond)[:60], construct="%s: truth value of the name" % f.qual)
+    return n
+
+
 def rule_optint_truthiness(ctx, typer, files, rule="D2"):
     """an optional integer (None = unbounded, 0 legal) is tested with `is None`,
     never by truthiness — unless a dominating guard makes 0 infeasible"""
@@ -518,6 +544,8 @@ def rule_D3_escape(ctx, typer, clsname, quoted=True):
                     ctx.inst("D3", f, node, "default label passes node.name through esc()")
                 else:
                     ctx.viol("D3", f, node, "default label uses node.name without esc()")
+        if not any(isinstance(node, ast.Attribute) and node.attr == "name" and isinstance(node.ctx, ast.Load) for node in walk_own(f.node)):
+            n += _label_helper_rule(ctx, typer, p, f, clsname)
     # esc itself
     esc = cls.lookup("esc")
     if not isinstance(esc, Func):
@@ -611,6 +639,69 @@ def rule_D3_escape(ctx, typer, clsname, quoted=True):
 
 
 # ---------------------------------------------------------------------- D4
+def _label_helper_rule(ctx, typer, p, f, clsname):
+    """the default label is esc(H(node)) with H a helper of the package that returns the node's `name` whenever the node has
+    one: name = getattr(node, "name", <sentinel object()>), replaced only under `name is <sentinel>`"""
+    from ..model import Func
+    nodep = f.posparams[-1]
+    for c in walk_own(f.node):
+        if not (isinstance(c, ast.Call) and _last_name(c.func) == "esc" and len(c.args) == 1 and isinstance(c.args[0], ast.Call)
+                and [norm(a) for a in c.args[0].args] == [nodep] and not c.args[0].keywords):
+            continue
+        hc = c.args[0]
+        h = None
+        if isinstance(hc.func, ast.Attribute) and norm(hc.func.value) in (clsname, f.selfname or "", "self", "cls"):
+            h = p.cls(clsname).lookup(hc.func.attr)
+        elif isinstance(hc.func, ast.Name):
+            r = p.resolve_name(f.module, hc.func.id)
+            h = r[1] if r is not None and r[0] == "func" else None
+        if not isinstance(h, Func):
+            continue
+        ctx.touch(h)
+        hp = [q for q in h.posparams if q != h.selfname]
+        if len(hp) != 1:
+            continue
+        cfg = typer.cfg_of(h)
+        reads = [a for a in walk_own(h.node) if isinstance(a, ast.Assign) and len(a.targets) == 1 and isinstance(a.targets[0], ast.Name)
+                 and isinstance(a.value, ast.Call) and norm(a.value.func) == "getattr" and len(a.value.args) == 3
+                 and norm(a.value.args[0]) == hp[0] and isinstance(a.value.args[1], ast.Constant) and a.value.args[1].value == "name"]
+        rets = [r for r in walk_own(h.node) if isinstance(r, ast.Return)]
+        ors = [b for b in walk_own(h.node) if isinstance(b, ast.BoolOp) and isinstance(b.op, ast.Or) and isinstance(b.values[0], ast.Call)
+               and norm(b.values[0].func) == "getattr" and len(b.values[0].args) >= 2 and isinstance(b.values[0].args[1], ast.Constant)
+               and b.values[0].args[1].value == "name"]
+        if ors:
+            ctx.viol("D3", h, ors[0], "the default label is `%s`: a name that is merely falsy ('', 0, None) is replaced by the fall-back instead of "
+                     "being printed as it is" % norm(ors[0])[:70], construct="%s: falsy name replaced" % h.qual)
+            return 1
+        if len(reads) != 1 or not rets or not any(r.value is not None and norm(r.value) == reads[0].targets[0].id for r in rets):
+            continue
+        v = reads[0].targets[0].id
+        dflt = reads[0].value.args[2]
+        sentinel = False
+        if isinstance(dflt, ast.Name):
+            r = p.resolve_name(h.module, dflt.id)
+            sentinel = r is not None and r[0] == "const" and isinstance(r[1], ast.Call) and norm(r[1].func) == "object" and not r[1].args
+        others = [cn for cn in cfg.nodes if cn.kind == "stmt" and isinstance(cn.ast, ast.Assign) and cn.ast is not reads[0]
+                  and any(isinstance(t, ast.Name) and t.id == v for t in cn.ast.targets)]
+        # a return of something else than the name read (the normalised form of `name = <fall-back>; return name`)
+        others += [cn for cn in cfg.nodes if cn.kind == "return" and (cn.ast.value is None or norm(cn.ast.value) != v)]
+        verdict = True
+        for cn in others:
+            gs = cfg.guards_of(cn)
+            good = sentinel and any(isinstance(g, ast.Compare) and len(g.ops) == 1 and isinstance(g.ops[0], ast.Is) and o is True
+                                    and {norm(g.left), norm(g.comparators[0])} == {v, norm(dflt)} for g, o, _ in gs)
+            if not good:
+                verdict = False
+                why = "; ".join("`%s` is %s" % (norm(g)[:40], o) for g, o, _ in gs) or "unconditionally"
+                ctx.viol("D3", h, cn.ast, "the default label is the node's name only while %s does not replace it: it is replaced when %s - a name "
+                         "that is merely falsy / None / equal to the fall-back marker is not printed as it is" % (h.qual, why),
+                         construct="%s: name replaced outside `is <sentinel>`" % h.qual)
+        if verdict:
+            ctx.inst("D3", f, c, "default label is esc(%s(node)): the name whenever the node has one (sentinel fall-back)" % h.qual)
+        return 1
+    return 0
+
+
 def rule_D4_ids(ctx, typer, clsname):
     """default identifiers: map keyed by id(node), get-or-insert with a counter,
     map and counter assigned only in __init__"""
